@@ -872,7 +872,8 @@ func LoadedField(v ssa.Value) (typ, field string, ok bool) {
 func Returns(fn *ssa.Function) []*ssa.Return {
 	var out []*ssa.Return
 	for _, b := range fn.Blocks {
-		if len(b.Instrs) == 0 {
+		if len(b.Instrs) == 0 || b == fn.Recover {
+			// the recover block only runs after a recovered panic; it re-loads the result cells
 			continue
 		}
 		if r, ok := b.Instrs[len(b.Instrs)-1].(*ssa.Return); ok {
